@@ -15,26 +15,46 @@ Rec == ndJsonDeserialize(IOEnv.TRACE)
 
 Objs == 0..7
 
-VARIABLES st, l, hl
-vars == <<st, l, hl>>
+VARIABLES st, l, hl, memo
+vars == <<st, l, hl, memo>>
 
 NoHullRec == [some |-> FALSE]
 
-TraceInit == st = [o \in Objs |-> NoState] /\ l = 1 /\ hl = [o \in Objs |-> NoHullRec] /\ TLCSet(8, 0)
+TraceInit == st = [o \in Objs |-> NoState] /\ l = 1 /\ hl = [o \in Objs |-> NoHullRec] /\ memo = {} /\ TLCSet(8, 0)
 
 Ev    == Rec[l]
 IsEvent(e) == l <= Len(Rec) /\ Rec[l].ev = e /\ l' = l + 1 /\ TLCSet(8, l)
               /\ Chk("C19.panic", ~Rec[l].panic)
               /\ Chk("C19.timeout", ~Rec[l].timeout)
 
-SetObj(o, S) == st' = [st EXCEPT ![o] = S] /\ UNCHANGED hl
+SetObj(o, S) == st' = [st EXCEPT ![o] = S] /\ UNCHANGED <<hl, memo>>
+SetObjOnly(o, S) == st' = [st EXCEPT ![o] = S] /\ UNCHANGED hl
 
-TReset == IsEvent("Reset") /\ st' = [o \in Objs |-> NoState] /\ hl' = [o \in Objs |-> NoHullRec]
+TReset == IsEvent("Reset") /\ st' = [o \in Objs |-> NoState] /\ hl' = [o \in Objs |-> NoHullRec] /\ UNCHANGED memo
 
+\* C14: `memo` is a history variable: what an earlier construction with the same determinism key
+\* (same vertex values and options; for the order-insensitive strategies the key ignores the
+\* caller's order) produced, as cells over coordinate tuples
+CoordCells(S) == IF S.live THEN {{VRec(S, v).m : v \in CellSet(c)} : c \in CRecs(S)} ELSE {}
 TConstruct ==
   /\ IsEvent("Construct")
   /\ Construct(Ev.args, Ev.res, Ev.post)
-  /\ SetObj(Ev.obj, Ev.post)
+  /\ IF Ev.args.dkey = "" THEN UNCHANGED memo
+     ELSE LET old == {r \in memo : r.key = Ev.args.dkey}
+              now == [key |-> Ev.args.dkey, ok |-> (Ev.res.kind = "Ok"), cells |-> CoordCells(Ev.post)]
+          IN  /\ Chk("C14.same vertex values and options, different result", \A r \in old : r = now)
+              /\ memo' = memo \cup {now}
+  /\ SetObjOnly(Ev.obj, Ev.post)
+
+\* C14: in general position every certified result is THE Delaunay triangulation
+TCanon ==
+  /\ IsEvent("Canon")
+  /\ st[Ev.obj].live
+  /\ LET S == st[Ev.obj] IN
+     Chk("C14.general position: not the Delaunay triangulation of the vertex set",
+         Len(S.verts) <= Ev.args.gpmax /\ PertSet(S) = {} /\ Len(S.cells) > 0
+         /\ NoStrictlyInside(S) /\ EmbeddedQ(S) /\ GeneralPosition(S) => K(S) = DelaunayCells(S))
+  /\ UNCHANGED <<st, hl, memo>>
 
 TInsert ==
   /\ IsEvent("Insert")
@@ -68,7 +88,7 @@ TVerdicts ==
   /\ IsEvent("Verdicts")
   /\ st[Ev.obj].live
   /\ Verdicts(st[Ev.obj], Ev.res)
-  /\ UNCHANGED <<st, hl>>
+  /\ UNCHANGED <<st, hl, memo>>
 
 \* an empty triangulation object created by empty()/with_empty_kernel...
 TEmpty ==
@@ -87,7 +107,7 @@ TLocate ==
   /\ IsEvent("Locate")
   /\ st[Ev.obj].live
   /\ Locate(st[Ev.obj], Ev.res)
-  /\ UNCHANGED <<st, hl>>
+  /\ UNCHANGED <<st, hl, memo>>
 
 THullCreate ==
   /\ IsEvent("HullCreate")
@@ -99,19 +119,19 @@ THullCreate ==
      \/ /\ Ev.res.kind = "Err"
         /\ Chk("C11.hull refused for a triangulation with cells", Len(st[Ev.obj].cells) = 0)
         /\ hl' = [hl EXCEPT ![Ev.obj] = NoHullRec]
-  /\ UNCHANGED st
+  /\ UNCHANGED <<st, memo>>
 
 THullQuery ==
   /\ IsEvent("HullQuery")
   /\ st[Ev.obj].live /\ hl[Ev.obj].some
   /\ HullQuery(st[Ev.obj], hl[Ev.obj], Ev.res)
-  /\ UNCHANGED <<st, hl>>
+  /\ UNCHANGED <<st, hl, memo>>
 
 TQueries ==
   /\ IsEvent("Queries")
   /\ st[Ev.obj].live
   /\ Queries(st[Ev.obj], Ev.res)
-  /\ UNCHANGED <<st, hl>>
+  /\ UNCHANGED <<st, hl, memo>>
 
 TClone ==
   /\ IsEvent("Clone")
@@ -130,12 +150,12 @@ TCompare ==
   /\ IsEvent("Compare")
   /\ st[Ev.obj].live /\ st[Ev.args.other].live
   /\ CompareOK(st[Ev.obj], st[Ev.args.other])
-  /\ UNCHANGED <<st, hl>>
+  /\ UNCHANGED <<st, hl, memo>>
 
 TraceNext ==
   \/ TReset \/ TConstruct \/ TInsert \/ TRemove \/ TFlip \/ TRepair \/ TVerdicts
   \/ TEmpty \/ TSetPolicy \/ TLocate \/ THullCreate \/ THullQuery \/ TQueries
-  \/ TClone \/ TSerDe \/ TCompare
+  \/ TClone \/ TSerDe \/ TCompare \/ TCanon
 
 TraceSpec == TraceInit /\ [][TraceNext]_vars
 
